@@ -2,11 +2,14 @@
 (* C12 / C13 — input framing is independent of how the network chops the     *)
 (* stream.  Level B: three reader state machines shaped after the Go code,    *)
 (*   "scanner"  input/plain.go   bufio.Scanner + ScanLines, Dispatch per token *)
-(*   "readline" input/amqp.go    bufio.Reader(Cap).ReadLine per delivery,      *)
-(*                               isPrefix ignored (a line of up to Cap symbols *)
-(*                               is whole in the one slice that fills the      *)
-(*                               buffer; its terminator then comes out as an   *)
-(*                               empty slice, which is dispatched as well)     *)
+(*   "readline" input/amqp.go    bufio.Reader(Cap).ReadLine per delivery; the  *)
+(*                               slices of a line that does not fit the buffer *)
+(*                               (isPrefix) are put together again and the     *)
+(*                               line is dispatched once, when its end is seen *)
+(*                               (deviation "isprefix_ignored": the code as it *)
+(*                               was pinned -- every slice dispatched by       *)
+(*                               itself, so a line that fills the buffer       *)
+(*                               exactly is followed by an empty one)          *)
 (*   "frames"   input/pickle.go  4-byte length -> peek prefix -> chunk loop -> *)
 (*                               decode/dispatch, per connection               *)
 (* each consuming ANY segmentation of the stream (a read returns 1..all of the *)
@@ -108,34 +111,39 @@ ScFinal == /\ st \in {"last", "last2"} /\ ~HasT(n) /\ (Cap = 0 \/ Avail < Cap)
            /\ UNCHANGED <<fixed, n, term, cut, need, acc>>
 ScNext == ScEmit \/ ScTooLong \/ ScRead \/ ScFinal
 
-\* bufio.Reader(Cap).ReadLine in a loop, every returned slice dispatched (isPrefix ignored).
-\* RlFull is ReadLine returning isPrefix = true: the buffer holds Cap symbols and no LF; a CR in the
-\* last place is put back (it may be the first half of a CRLF).  A line of exactly Cap symbols (or
-\* Cap - 1 and CRLF) comes out whole that way, and the next call returns its bare terminator as an
-\* empty slice (RlEmit with p = lo, or stream[lo] = CR and p = lo + 1).
-\* The deviation "drop_on_isprefix" takes isPrefix = true to mean "line longer than Cap": that slice
-\* and the rest of the line up to its LF are discarded (phase = "skip"), nothing is dispatched for it.
+\* bufio.Reader(Cap).ReadLine in a loop.  RlFull is ReadLine returning isPrefix = true: the buffer holds Cap
+\* symbols and no LF; a CR in the last place is put back (it may be the first half of a CRLF).  The slice is kept
+\* (need = where the line being put together starts, 0 = no line in progress) and the line is dispatched as a whole
+\* when the slice with isPrefix = false arrives (RlEmit) or the body ends (RlFinal).
+\* Deviation "isprefix_ignored" (the pinned code): every slice is dispatched by itself -- a line of exactly Cap
+\* symbols (or Cap - 1 and CRLF) still comes out whole, but the next call returns its bare terminator as an empty
+\* slice, which is dispatched too.
+\* Deviation "drop_on_isprefix" takes isPrefix = true to mean "line longer than Cap": that slice and the rest of
+\* the line up to its LF are discarded (phase = "skip"), nothing is dispatched for it.
 Win == IF Cap = 0 \/ lo + Cap - 1 > n THEN n ELSE lo + Cap - 1       \* the part of the input the buffer holds
 Skipping == phase = "skip"
+Joins == Mutant \notin {"isprefix_ignored", "drop_on_isprefix"}
+LineStart == IF need > 0 THEN need ELSE lo
 RlEmit == /\ st # "done" /\ HasT(Win)
           /\ LET p == FirstT(Win) IN
-               /\ out' = IF Skipping THEN out ELSE Append(out, DropCR(stream, lo, p - 1))
+               /\ out' = IF Skipping THEN out ELSE Append(out, DropCR(stream, LineStart, p - 1))
                /\ lo' = p + 1
-          /\ phase' = "hdr"
-          /\ UNCHANGED <<fixed, n, st, term, cut, need, acc>>
+          /\ phase' = "hdr" /\ need' = 0
+          /\ UNCHANGED <<fixed, n, st, term, cut, acc>>
 RlFull == /\ st # "done" /\ Cap > 0 /\ Avail >= Cap /\ ~HasT(Win)
           /\ LET b == lo + Cap - 1
                  e == IF stream[b] = "CR" /\ Cap > 1 THEN b - 1 ELSE b        \* the CR is put back
-             IN  /\ out' = IF Skipping \/ Mutant = "drop_on_isprefix" THEN out ELSE Append(out, <<lo, e>>)
+             IN  /\ out' = IF Mutant = "isprefix_ignored" /\ ~Skipping THEN Append(out, <<lo, e>>) ELSE out
+                 /\ need' = IF Joins /\ need = 0 THEN lo ELSE need
                  /\ lo' = e + 1
           /\ phase' = IF Mutant = "drop_on_isprefix" THEN "skip" ELSE phase
-          /\ UNCHANGED <<fixed, n, st, term, cut, need, acc>>
+          /\ UNCHANGED <<fixed, n, st, term, cut, acc>>
 RlRead == /\ ~HasT(Win) /\ (Cap = 0 \/ Avail < Cap) /\ Read
           /\ UNCHANGED <<fixed, lo, out, phase, need, acc>>
 RlFinal == /\ st \in {"last", "last2"} /\ ~HasT(Win) /\ (Cap = 0 \/ Avail < Cap)
-           /\ out' = IF lo <= n /\ ~Skipping THEN Append(out, <<lo, n>>) ELSE out       \* no CR stripping without LF
-           /\ lo' = n + 1 /\ Finish
-           /\ UNCHANGED <<fixed, n, term, cut, need, acc>>
+           /\ out' = IF LineStart <= n /\ ~Skipping THEN Append(out, <<LineStart, n>>) ELSE out       \* no CR stripping without LF
+           /\ lo' = n + 1 /\ need' = 0 /\ Finish
+           /\ UNCHANGED <<fixed, n, term, cut, acc>>
 RlNext == RlEmit \/ RlFull \/ RlRead \/ RlFinal
 
 ------------------------------------------------------------------------------
@@ -177,7 +185,10 @@ Spec == Init /\ [][Next]_vars
 \* the supported limits.  scanner: a line INCLUDING its terminator fits the token buffer (MaxLine);
 \* readline: the CONTENT of every line is at most Cap symbols (MaxNeed; FramingOps: a line that fills
 \* the buffer exactly is still within the limit -- "lines up to 4 KiB are processed whole")
-ACap == IF Reader = "readline" THEN Cap ELSE 0
+\* (the reader puts the slices of a line together again: within the limit it owes exactly the lines -- ACap = 0;
+\* the C-variants of FramingOps describe what the pinned reader, which dispatched every slice by itself, could do,
+\* and PinnedBody keeps that analysis checked)
+ACap == IF Reader = "readline" /\ Mutant = "isprefix_ignored" THEN Cap ELSE 0
 InLimit == \/ Cap = 0 \/ Mutant = "claim_unlimited"
            \/ IF Reader = "readline" THEN MaxNeed(stream) <= Cap ELSE MaxLine(stream) <= Cap
 
@@ -208,12 +219,16 @@ StopsAtError == (Mutant = "" /\ term # "none") =>
                 /\ \A i \in 1..Len(out) : Reader # "frames" => out[i][2] <= cut
 
 LineOK  == Mutant = "" => LineBody
+PinnedBody == Mutant = "isprefix_ignored" => LineBody       \* the pinned reader met the relaxed statement, not the exact one
+ExactBody == (Reader # "frames" /\ InLimit) =>
+            /\ st = "done" => out \in AcceptableAt(stream, cut, term)
+            /\ st # "done" => IsPrefixOf(out, Terminated(SubSeq(stream, 1, n), 1, 1))
 FrameOK == Mutant = "" => FrameBody
 
 \* non-vacuity (Framing_nv.cfg): every named deviation must break LineBody or FrameBody somewhere;
 \* register 10+i remembers that deviation i was caught, the postcondition demands all of them
 MutList == <<"partial_at_refill", "split_on_cr", "drop_last", "dup", "claim_unlimited",
-             "lose_at_cut", "prefix_any", "hdr_eof_clean", "read_on_after_error", "drop_on_isprefix">>
+             "lose_at_cut", "prefix_any", "hdr_eof_clean", "read_on_after_error", "drop_on_isprefix", "isprefix_ignored">>
 MutIdx(m) == CHOOSE i \in 1..Len(MutList) : MutList[i] = m
 ASSUME \A i \in 1..Len(MutList) : TLCSet(10 + i, 0)
 \* without a bound the C-variants are the plain operators
@@ -223,7 +238,7 @@ ASSUME \A s \in UNION {[1..k -> Sym] : k \in 0..3} : \A t \in Terms :
           /\ \A e \in 0..Len(s) : AcceptableAtC(s, e, t, 0) = AcceptableAt(s, e, t)
 \* "read_on_after_error" counts as caught only where the finished connection's dispatch list is one
 \* of ReadOn (the lists the case generators name for that deviation) and AcceptableAt rejects it
-NoteCaught == (/\ Mutant # "" /\ ~(LineBody /\ FrameBody)
+NoteCaught == (/\ Mutant # "" /\ ~((IF Mutant = "isprefix_ignored" THEN ExactBody ELSE LineBody) /\ FrameBody)
                /\ Mutant = "read_on_after_error" => st = "done" /\ out \in ReadOn(stream, cut))
               => TLCSet(10 + MutIdx(Mutant), 1)
 AllCaught == /\ PrintT("@@NV " \o ToJson([caught |-> {m \in Mutants \ {""} : TLCGet(10 + MutIdx(m)) = 1}]))
